@@ -115,7 +115,8 @@ fn c14t_stride_reg_total_on_the_real_table() { let h: u32 = kani::any(); let r =
 // `inv(scheme(h)) == Some(h)` for EVERY u32 h is the injectivity proof of that scheme (no pairwise search).
 // Injectivity ACROSS schemes: each scheme's output falls in a syntactic class that is a function of the text
 // alone (`class_of`), and the five classes are pairwise different, so two schemes can never produce the same
-// text; `tail` returns the result of exactly one scheme (c14t_tail_is_the_first_scheme).
+// text; `tail` returns None or the answer of one scheme for the same address (c14_tail_returns_the_answer_of_a_scheme_for_the_same_address,
+// modular: the five callees are replaced by recording any-result stand-ins).
 fn lim_idx(c: u8) -> Option<u32> { let a = b"ABCDEFGHJKLMNPQRSTUVWXYZ"; let mut i = 0; while i < 24 { if a[i] == c { return Some(i as u32); } i += 1; } None }
 fn dig(c: u8) -> Option<u32> { if c >= b'0' && c <= b'9' { Some((c - b'0') as u32) } else { None } }
 /// value of a 0..=2 letter suffix inside a 601-block: "" -> 0, "A" -> 1, "AA" -> 2, "AB" -> 3 ... (25 per first letter)
@@ -259,6 +260,56 @@ fn c14_numeric_reg_country_consistent() { let h: u32 = kani::any(); if let Some(
 #[kani::proof]
 #[kani::unwind(40)]
 fn c14t_stride_reg_country_consistent() { let h: u32 = kani::any(); if let Some(s) = stride_reg(h) { assert!(country_consistent(h, &s)); } kani::cover!(stride_reg(h).is_some()); }
+// ------------------------------------------------------------------------------------------------
+// `tail` against the CONTRACTS of its five callees (modular step): each callee is replaced by a stand-in that
+// returns ANY Option<Str> (the same one on every call: the callees are pure) and records the address it was asked
+// for.  What injectivity and country consistency need from `tail`, and all that is demanded: its result is None or
+// is the answer of one of the five schemes asked for the SAME address.  (Order and number of calls are free.)
+//@ allow "kani::stub(n_reg"
+//@ allow "kani::stub(ja_reg"
+//@ allow "kani::stub(hl_reg"
+//@ allow "kani::stub(numeric_reg"
+//@ allow "kani::stub(stride_reg"
+pub static mut SR: [Option<Str>; 5] = [None; 5];
+pub static mut SCALLS: [usize; 5] = [0; 5];
+pub static mut SARG_OK: [bool; 5] = [true; 5];
+pub static mut SADDR: u32 = 0;
+fn any_answer(k: usize, h: u32) -> Option<Str> {
+    unsafe {
+        if SCALLS[k] == 0 {
+            SR[k] = if kani::any() { let mut t = Str::new(); t.b = kani::any(); t.n = kani::any(); kani::assume(t.n <= 32); Some(t) } else { None };
+        }
+        if SCALLS[k] < 8 { SCALLS[k] += 1; }
+        if h != SADDR { SARG_OK[k] = false; }
+        SR[k]
+    }
+}
+fn n_reg_any(h: u32) -> Option<Str> { any_answer(0, h) }
+fn ja_reg_any(h: u32) -> Option<Str> { any_answer(1, h) }
+fn hl_reg_any(h: u32) -> Option<Str> { any_answer(2, h) }
+fn numeric_reg_any(h: u32) -> Option<Str> { any_answer(3, h) }
+fn stride_reg_any(h: u32) -> Option<Str> { any_answer(4, h) }
+#[kani::proof]
+#[kani::unwind(34)]
+#[kani::stub(n_reg, n_reg_any)]
+#[kani::stub(ja_reg, ja_reg_any)]
+#[kani::stub(hl_reg, hl_reg_any)]
+#[kani::stub(numeric_reg, numeric_reg_any)]
+#[kani::stub(stride_reg, stride_reg_any)]
+fn c14_tail_returns_the_answer_of_a_scheme_for_the_same_address() {
+    let h: u32 = kani::any();
+    unsafe { SADDR = h; }
+    let r = tail(h);
+    unsafe {
+        let mut from_a_scheme = false;
+        let mut k = 0;
+        while k < 5 { if SCALLS[k] >= 1 && SARG_OK[k] && SR[k].is_some() && r == SR[k] { from_a_scheme = true; } k += 1; }
+        assert!(r.is_none() || from_a_scheme);
+        kani::cover!(r.is_some() && SCALLS[4] >= 1 && r == SR[4]);
+        kani::cover!(r.is_some() && SCALLS[0] >= 1 && r == SR[0]);
+        kani::cover!(r.is_none());
+    }
+}
 /// vacuity canary: must FAIL
 #[kani::proof]
 #[kani::unwind(27)]
